@@ -442,7 +442,16 @@ impl<'a> Evaluator<'a> {
                 self.compare(&left, f.op, &f.value, right)
             }
             Target::Alias(a) => {
-                let left = self.output_sql(obj, a);
+                let mut left = self.output_sql(obj, a);
+                if left.is_null() {
+                    // only reachable under ExplicitNullNoDefault: the filter still applies the default
+                    if let Some(d) = e.sels.iter().find_map(|s| match s {
+                        RSel::Scalar { out, f } if out == a => f.default.clone(),
+                        _ => None,
+                    }) {
+                        left = SqlVal::from_lit(&d);
+                    }
+                }
                 let right = self.right_value(e, &f.target, &f.value);
                 self.compare(&left, f.op, &f.value, right)
             }
@@ -725,7 +734,28 @@ impl<'a> Evaluator<'a> {
                 continue;
             }
             let first = members.first().map(|m| m.0);
-            let keys: Vec<SqlVal> = e.order.iter().map(|o| self.order_key(first, &obj, o)).collect();
+            let keys: Vec<SqlVal> = e
+                .order
+                .iter()
+                .map(|o| {
+                    // a key on a field the deviation drops from the grouping is read on an arbitrary
+                    // member of the group: no order can be required on it
+                    let dropped = |f: &FieldRef| {
+                        (f.ty == Ty::Base64 && self.quirks.has(Quirk::GroupByBase64Ignored))
+                            || (f.system && self.quirks.has(Quirk::GroupBySystemIgnored))
+                    };
+                    let arbitrary = match &o.target {
+                        Target::Field(f) => dropped(f),
+                        Target::Alias(a) => e.sels.iter().any(|s| matches!(s, RSel::Scalar { out, f } if out == a && dropped(f))),
+                        _ => false,
+                    };
+                    if arbitrary {
+                        SqlVal::Null
+                    } else {
+                        self.order_key(first, &obj, o)
+                    }
+                })
+                .collect();
             rows.push(ExpRow {
                 keys,
                 obj: Exp::Obj(obj),
